@@ -624,6 +624,27 @@ _add("C03", rule="cookie mode: final ACKs 1..3 above the cookie (known finding F
 _add("C20", rule="upgrade requests whose key is the base64 form of a 6-, 20-, 32- or 52-byte nonce", probes=["ws_keys_of_unusual_length"])
 
 
+# wave 9
+_add("C03", rule="a final ACK presented by another source port of the same host than the one whose SYN was answered (no connection may come of it); "
+     "sweeps of 120-400 SYNs to closed ports within one instant, each owed its reset",
+     probes=["final_ack_from_another_port", "stray_sweeps"])
+_add("C05", rule="receivers whose window holds 3-8 segments, so that the window and not the congestion window limits the flight; liveness: seven silent "
+     "seconds with data outstanding and no earlier timeout must show at least one retransmission (no-retransmission-by-timeout); a connection "
+     "that has sent a reset is not judged further; duplicate ACKs while only the FIN is outstanding are counted, not judged; link write faults "
+     "are deliberately not part of this scenario (its timing clauses are read off the wire, DESIGN.md 0.4)",
+     probes=["window_limited_receiver", "silent_periods"])
+_add("C09", rule="15% of the configurations switch spoofing on for an interface (packets for unassigned addresses still reach nobody); ICMP errors "
+     "quoting datagrams whose source is not a local address must not be reported to any socket",
+     probes=["spoofing_interfaces", "icmp_errors_about_foreign_datagrams"])
+_add("C11", rule="strangers (another host, another port, another address family) sending to connected sockets; dual-stack sockets connected to a v4-mapped "
+     "peer; two goroutines writing different datagrams on one unconnected socket (each successful Write is one frame, whole, with its own "
+     "destination); zero-byte writes are datagrams",
+     probes=["strangers_sending_to_connected_sockets", "dual_stack_sockets_connected_to_an_ipv4_peer", "concurrent_writes_on_one_socket"])
+_add("C13", rule="a fifth of the runs own an IPv4 subnet (32.1.13.0/24) and are pinged at an unassigned IPv6 address whose first four bytes lie inside it",
+     probes=["ipv6_requests_to_an_address_resembling_the_ipv4_subnet"])
+_add("C19", rule="an assertion made before the waker's current attachment counts: a waker stays asserted across Done and AddWaker")
+
+
 PENDING = "check not built yet (work in progress; will be claimed once its simulation exists)"
 NOT_APPLICABLE = {
     "C15": "pure functions of their input (header codecs, RFC 1071 checksum): no schedule, clock, fault, I/O or second party for a simulator to control; "
